@@ -12,3 +12,28 @@ Theorem C06_rejected_iff_full : forall cf ps n p c sp sc d ps',
   (d = 0%Z <-> (C06.lt_cap p c = false \/ C06.lt_cap sp sc = false)).
 Proof. exact C06.spawn_iff. Qed.
 Print Assumptions C06_rejected_iff_full.
+
+(* ---- T2: the engine model (coq/Engine, tied to /repo by the stepwise correspondence check K2) never exceeds a capacity ---- *)
+From CiwV.Engine Require Import State Engine Codec.
+From CiwV.Inv Require Import Frame Conserve ConserveRun Capacity SysCap CapacityRun.
+
+(* for every configuration, every state satisfying the invariants, every oracle of draws and any number of events *)
+Theorem engine_capacity : forall cf ds s s',
+  Conserve.WFx nil s -> Capacity.J cf s -> SysCap.Sysq cf s -> Codec.run_many cf s ds = Ok s' ->
+  (forall k nd c, nth_error (nodes s') k = Some nd -> Capacity.cap_of cf (Z.of_nat k + 1) = Some c -> (n_pop nd <= c)%Z) /\
+  (forall sc, cf_syscap cf = Some sc -> (Prelude.zsum (map n_pop (nodes s')) <= sc)%Z).
+Proof. exact CapacityRun.engine_capacity. Qed.
+Print Assumptions engine_capacity.
+
+(* one event: node capacities, system capacity *)
+Theorem event_step_cap : forall cf s s', Capacity.J cf s -> Engine.event_step cf s = Ok (tt, s') -> Capacity.J cf s'.
+Proof. exact Capacity.event_step_cap. Qed.
+Print Assumptions event_step_cap.
+Theorem event_step_sys : forall cf s s', SysCap.Sysq cf s -> Engine.event_step cf s = Ok (tt, s') -> SysCap.Sysq cf s'.
+Proof. exact SysCap.event_step_sys. Qed.
+Print Assumptions event_step_sys.
+
+(* the executable test of the hypotheses used by the correspondence check on the real engine's initial snapshot *)
+Theorem cap_b_sound : forall cf s, CapacityRun.cap_b cf s = true -> Capacity.J cf s /\ SysCap.Sysq cf s.
+Proof. exact CapacityRun.cap_b_sound. Qed.
+Print Assumptions cap_b_sound.
